@@ -226,11 +226,7 @@ Proof.
 Qed.
 
 (** *** min / max over integers: exact, order independent, and they combine *)
-Definition minZ (zs : list Z) : option Z :=
-  match zs with [] => None | z :: r => Some (fold_left Z.min r z) end.
-Definition maxZ (zs : list Z) : option Z :=
-  match zs with [] => None | z :: r => Some (fold_left Z.max r z) end.
-
+(* [minZ] / [maxZ] are defined in Agg_proofs *)
 Lemma small_fold_min : forall zs z, small z -> Forall small zs -> small (fold_left Z.min zs z).
 Proof.
   induction zs as [|a zs IH]; intros z Hz Hf; [exact Hz|].
@@ -271,36 +267,6 @@ Lemma fltb_finite_inf : forall x, f_is_finite x = true -> fltb x f_inf = true.
 Proof. intros x H. destruct x as [s|s| |s m e]; try discriminate H; reflexivity. Qed.
 Lemma fltb_neg_inf_finite : forall x, f_is_finite x = true -> fltb f_neg_inf x = true.
 Proof. intros x H. destruct x as [s|s| |s m e]; try discriminate H; reflexivity. Qed.
-
-Theorem min_exact : forall e rows zs,
-  numeric_args e rows = map f_of_Z zs -> Forall small zs ->
-  acc_emit (fold_left acc_step rows (acc_empty (FMin e))) =
-  Ok (match minZ zs with Some m => VInt m | None => VNone end).
-Proof.
-  intros e rows zs Hn Hf. cbn [acc_empty]. rewrite min_fold, Hn.
-  destruct zs as [|z zs]; [reflexivity|].
-  inversion Hf as [|z' zs' Hz Hzs]; subst.
-  cbn [map fold_left minZ].
-  rewrite (fltb_finite_inf _ (proj2 (f_of_Z_valid z Hz))).
-  rewrite fold_min_ints by assumption. cbn [acc_emit].
-  pose proof (small_fold_min zs z Hz Hzs) as Hs.
-  rewrite (proj2 (f_of_Z_valid _ Hs)). rewrite from_float_of_Z by exact Hs. reflexivity.
-Qed.
-
-Theorem max_exact : forall e rows zs,
-  numeric_args e rows = map f_of_Z zs -> Forall small zs ->
-  acc_emit (fold_left acc_step rows (acc_empty (FMax e))) =
-  Ok (match maxZ zs with Some m => VInt m | None => VNone end).
-Proof.
-  intros e rows zs Hn Hf. cbn [acc_empty]. rewrite max_fold, Hn.
-  destruct zs as [|z zs]; [reflexivity|].
-  inversion Hf as [|z' zs' Hz Hzs]; subst.
-  cbn [map fold_left maxZ].
-  rewrite (fltb_neg_inf_finite _ (proj2 (f_of_Z_valid z Hz))).
-  rewrite fold_max_ints by assumption. cbn [acc_emit].
-  pose proof (small_fold_max zs z Hz Hzs) as Hs.
-  rewrite (proj2 (f_of_Z_valid _ Hs)). rewrite from_float_of_Z by exact Hs. reflexivity.
-Qed.
 
 Lemma fold_min_init : forall l a b, fold_left Z.min l (Z.min a b) = Z.min a (fold_left Z.min l b).
 Proof.
@@ -370,6 +336,114 @@ Proof.
   intros [|x r] b; [reflexivity|].
   cbn [app maxZ]. rewrite fold_left_app. destruct b as [|y s]; [reflexivity|].
   cbn [fold_left]. rewrite fold_max_init. reflexivity.
+Qed.
+
+(** the cell for an integral double extremum [f_of_Z z] and the exact integer extremum *)
+Lemma minmax_emit_small_min : forall z mi, small z ->
+  minmax_emit true (f_of_Z z) mi = VInt (match mi with Some i => Z.min i z | None => z end).
+Proof.
+  intros z mi Hz.
+  pose proof (proj2 (f_of_Z_valid z Hz)) as Hfin.
+  pose proof (from_float_of_Z z Hz) as Hff.
+  unfold minmax_emit. rewrite Hfin, Hff.
+  assert (Hm : match mi with Some i => vmin (VInt i) (VInt z) | None => VInt z end =
+               VInt (match mi with Some i => Z.min i z | None => z end)).
+  { destruct mi as [i|]; [|reflexivity]. unfold vmin. cbn [vcmp].
+    destruct (Z.compare_spec z i); f_equal; lia. }
+  destruct (f_of_Z z) as [s|s| |s m e]; try discriminate Hfin; exact Hm.
+Qed.
+Lemma minmax_emit_small_max : forall z mi, small z ->
+  minmax_emit false (f_of_Z z) mi = VInt (match mi with Some i => Z.max i z | None => z end).
+Proof.
+  intros z mi Hz.
+  pose proof (proj2 (f_of_Z_valid z Hz)) as Hfin.
+  pose proof (from_float_of_Z z Hz) as Hff.
+  unfold minmax_emit. rewrite Hfin, Hff.
+  assert (Hm : match mi with Some i => vmax (VInt i) (VInt z) | None => VInt z end =
+               VInt (match mi with Some i => Z.max i z | None => z end)).
+  { destruct mi as [i|]; [|reflexivity]. unfold vmax. cbn [vcmp].
+    destruct (Z.compare_spec z i); f_equal; lia. }
+  destruct (f_of_Z z) as [s|s| |s m e]; try discriminate Hfin; exact Hm.
+Qed.
+
+(** min / max are exact: over the integer arguments (an integer, or text holding one) WITHOUT any
+    bound on their size, together with the other numeric arguments when those are the integral
+    doubles of the integers [fz] of magnitude at most 2^53 *)
+Theorem min_exact : forall e rows fz,
+  float_args e rows = map f_of_Z fz -> Forall small fz ->
+  acc_emit (fold_left acc_step rows (acc_empty (FMin e))) =
+  Ok (match minZ (int_args e rows ++ fz) with Some m => VInt m | None => VNone end).
+Proof.
+  intros e rows fz Hn Hf. rewrite min_emit, Hn, minZ_app.
+  destruct fz as [|z fz].
+  - cbn [map fold_left minZ]. destruct (minZ (int_args e rows)); reflexivity.
+  - inversion Hf as [|z' zs' Hz Hzs]; subst.
+    cbn [map fold_left minZ].
+    rewrite (fltb_finite_inf _ (proj2 (f_of_Z_valid z Hz))).
+    rewrite fold_min_ints by assumption.
+    rewrite minmax_emit_small_min by (apply small_fold_min; assumption).
+    destruct (minZ (int_args e rows)); reflexivity.
+Qed.
+
+Theorem max_exact : forall e rows fz,
+  float_args e rows = map f_of_Z fz -> Forall small fz ->
+  acc_emit (fold_left acc_step rows (acc_empty (FMax e))) =
+  Ok (match maxZ (int_args e rows ++ fz) with Some m => VInt m | None => VNone end).
+Proof.
+  intros e rows fz Hn Hf. rewrite max_emit, Hn, maxZ_app.
+  destruct fz as [|z fz].
+  - cbn [map fold_left maxZ]. destruct (maxZ (int_args e rows)); reflexivity.
+  - inversion Hf as [|z' zs' Hz Hzs]; subst.
+    cbn [map fold_left maxZ].
+    rewrite (fltb_neg_inf_finite _ (proj2 (f_of_Z_valid z Hz))).
+    rewrite fold_max_ints by assumption.
+    rewrite minmax_emit_small_max by (apply small_fold_max; assumption).
+    destruct (maxZ (int_args e rows)); reflexivity.
+Qed.
+
+(** in particular: when every numeric argument is an integer, the cell is their exact
+    minimum / maximum, whatever their size (no 2^53 bound) *)
+Theorem min_exact_all_integers : forall e rows, float_args e rows = [] ->
+  acc_emit (fold_left acc_step rows (acc_empty (FMin e))) =
+  Ok (match minZ (int_args e rows) with Some m => VInt m | None => VNone end).
+Proof.
+  intros e rows H. rewrite (min_exact e rows [] H (Forall_nil _)), app_nil_r. reflexivity.
+Qed.
+Theorem max_exact_all_integers : forall e rows, float_args e rows = [] ->
+  acc_emit (fold_left acc_step rows (acc_empty (FMax e))) =
+  Ok (match maxZ (int_args e rows) with Some m => VInt m | None => VNone end).
+Proof.
+  intros e rows H. rewrite (max_exact e rows [] H (Forall_nil _)), app_nil_r. reflexivity.
+Qed.
+
+Lemma int_args_perm : forall e rows rows',
+  Permutation rows rows' -> Permutation (int_args e rows) (int_args e rows').
+Proof. intros e rows rows' H. unfold int_args. apply perm_flat_map. exact H. Qed.
+Lemma float_args_perm : forall e rows rows',
+  Permutation rows rows' -> Permutation (float_args e rows) (float_args e rows').
+Proof. intros e rows rows' H. unfold float_args. apply perm_flat_map. exact H. Qed.
+Lemma int_args_app : forall e a b, int_args e (a ++ b) = int_args e a ++ int_args e b.
+Proof. intros e a b. unfold int_args. apply flat_map_app. Qed.
+Lemma float_args_app : forall e a b, float_args e (a ++ b) = float_args e a ++ float_args e b.
+Proof. intros e a b. unfold float_args. apply flat_map_app. Qed.
+
+(** ... hence the min / max cell does not depend on the order of the rows *)
+Theorem min_max_perm_exact : forall e rows rows' fz,
+  Permutation rows rows' ->
+  float_args e rows = map f_of_Z fz -> Forall small fz ->
+  acc_emit (fold_left acc_step rows' (acc_empty (FMin e))) =
+    Ok (match minZ (int_args e rows ++ fz) with Some m => VInt m | None => VNone end) /\
+  acc_emit (fold_left acc_step rows' (acc_empty (FMax e))) =
+    Ok (match maxZ (int_args e rows ++ fz) with Some m => VInt m | None => VNone end).
+Proof.
+  intros e rows rows' fz Hp Hn Hs.
+  pose proof (float_args_perm e _ _ Hp) as Hq. rewrite Hn in Hq.
+  destruct (perm_map_inv _ _ Hq) as [fz' [Hz Hn']].
+  assert (Hs' : Forall small fz') by (eapply Permutation_Forall; eassumption).
+  assert (HP : Permutation (int_args e rows ++ fz) (int_args e rows' ++ fz'))
+    by (apply Permutation_app; [apply int_args_perm; exact Hp|exact Hz]).
+  rewrite (minZ_perm _ _ HP), (maxZ_perm _ _ HP).
+  split; [apply min_exact|apply max_exact]; assumption.
 Qed.
 
 (** *** count_distinct: exact under permutation *)
